@@ -15,18 +15,18 @@ import (
 // families), repeated Add returns the existing child, sentinel errors for nil / non-root, deprecated aliases identical.
 
 type c03Case struct {
-	Root   string        `json:"root"`
-	Prog   []ops.AddStep `json:"prog"` // build program, may contain repeated Adds and any parent-before-child order
-	Op     string        `json:"op"`   // text json yaml toml walk walkiter mkdir verify
-	Alias  bool          `json:"alias,omitempty"`
-	Branch *model.Branch `json:"branch,omitempty"`
-	Exts   []string      `json:"exts,omitempty"`
-	Strict bool          `json:"strict,omitempty"`
-	Drop   []int         `json:"drop,omitempty"`
-	Extra  []string      `json:"extra,omitempty"`
-	PreOps []string      `json:"preOps,omitempty"` // earlier operations on the same node tree (From-Root side only; Markdown has no state)
-	WFail  int           `json:"wFail,omitempty"`  // >0: the writer of both sides fails at write index WFail-1 (text and encoded output)
-	Massive bool         `json:"massive,omitempty"` // WithMassive on both sides (an option both API families accept)
+	Root    string        `json:"root"`
+	Prog    []ops.AddStep `json:"prog"` // build program, may contain repeated Adds and any parent-before-child order
+	Op      string        `json:"op"`   // text json yaml toml walk walkiter mkdir verify
+	Alias   bool          `json:"alias,omitempty"`
+	Branch  *model.Branch `json:"branch,omitempty"`
+	Exts    []string      `json:"exts,omitempty"`
+	Strict  bool          `json:"strict,omitempty"`
+	Drop    []int         `json:"drop,omitempty"`
+	Extra   []string      `json:"extra,omitempty"`
+	PreOps  []string      `json:"preOps,omitempty"`  // earlier operations on the same node tree (From-Root side only; Markdown has no state)
+	WFail   int           `json:"wFail,omitempty"`   // >0: the writer of both sides fails at write index WFail-1 (text and encoded output)
+	Massive bool          `json:"massive,omitempty"` // WithMassive on both sides (an option both API families accept)
 }
 
 var c03Ops = []string{"text", "json", "yaml", "toml", "walk", "walkiter", "mkdir", "verify"}
